@@ -6,7 +6,7 @@ import gen
 IMPORTS = ["Base", "Harness", "Check_C17"]
 CHECK_FN = "check_C17"
 RULE = ("translate: the complete 15^3 codon grid (lenient, as 15 sequences of 225 codons; strict, one codon per case: "
-        "all 3375 in the thorough tier, a seeded sample in the quick tier) plus random sequences incl. lower case, "
+        "all 3375 in both tiers) plus random sequences incl. lower case, "
         "non-IUPAC bytes and lengths not divisible by 3; complement/reverse-complement in text and bit-encoded form "
         "(both gap encodings) on all 32 accepted characters and random sequences; every text complement and one translation in seven is "
         "repeated 300 times while three other goroutines call the same package functions on other sequences (the workers of --threads N do so) "
@@ -45,7 +45,8 @@ def generate(ctx):
     for c1 in codes:                      # lenient: the whole grid
         seq = "".join(c1 + c2 + c3 for c2 in codes for c3 in codes)
         cs.append(tr(next(n), seq.encode(), False, "codon-grid-lenient"))
-    strict = allcodons if ctx.tier == "thorough" else rng.sample(allcodons, 400)
+    sample = rng.sample(allcodons, 400)          # (kept: the stream of rng is what it was)
+    strict = allcodons                           # all 3375, in both tiers: a few seconds
     for cod in strict:
         cs.append(tr(next(n), cod.encode(), True, "codon-strict"))
     for _ in range(40 if ctx.tier == "quick" else 400):
